@@ -1,6 +1,6 @@
 /-
 Model of `pkg/runtime/breakpoint.go` and of the breakpoint side of `pkg/runtime/debugger.go`:
-one `Breakpoint` registered in one `Debugger`, as a small-step machine of threads with explicit
+`nb` `Breakpoint`s registered in one `Debugger`, as a small-step machine of threads with explicit
 program counters over rendezvous channels and mutexes.
 
 Go (abridged; every blocking point is a program counter below):
@@ -63,8 +63,13 @@ Modelling decisions.
   snapshot of `a.watchers` contained it; the frame of hook thread `h` is identified with `h`.
   The mutex of the reader / writer the hook runs under is not modelled (a thread waiting for it
   resumes when the holder returns from `OnFrame`).
-* `AddBreakpoint` has happened: the breakpoint is registered and its first `d.next` goroutine is
-  thread 0 of `St.init`.
+* Breakpoints are indices `0 … nb-1` in the order of `AddBreakpoint` (the order of
+  `d.breakpoints`); every hook thread and every debugger-side thread carries the index of the
+  breakpoint it works on (`hbp`, `tbp`); `cur`, `done`, `reg` and the two breakpoint mutexes are
+  per breakpoint. `Debugger.Close` walks the registered breakpoints in list order
+  (`for _, bp := range d.breakpoints { bp.Close() }`): its `tbp` is the loop variable.
+* `AddBreakpoint` has happened for all of them: they are registered and the first `d.next`
+  goroutine of breakpoint `b` is thread `b` of `St.init nb`.
 -/
 import Std.Data.HashSet
 
@@ -91,33 +96,39 @@ inductive Pc where
   deriving DecidableEq, Repr
 
 structure St where
+  nb : Nat                    -- breakpoints 0 … nb-1, in `d.breakpoints` order
   nh : Nat                    -- hook threads 0 … nh-1
   hpc : Nat → HPc
+  hbp : Nat → Nat             -- the breakpoint whose `OnFrame` the hook thread is in
   nt : Nat                    -- debugger-side threads 0 … nt-1
   prog : Nat → Prog
   pc : Nat → Pc
-  cur : Option Nat            -- b.current
-  done : Bool                 -- b.done is closed
-  reg : Bool                  -- the breakpoint is in d.breakpoints
-  dcur : Bool                 -- d.current != nil
+  tbp : Nat → Nat             -- the breakpoint the thread works on (loop variable of `Debugger.Close`)
+  cur : Nat → Option Nat      -- b.current, per breakpoint
+  done : Nat → Bool           -- b.done is closed
+  reg : Nat → Bool            -- the breakpoint is in d.breakpoints
+  dcur : Option Nat           -- d.current (a breakpoint)
   ddone : Bool                -- d.done is closed
 
 def St.empty : St :=
-  { nh := 0, hpc := fun _ => .returned, nt := 0, prog := fun _ => .next, pc := fun _ => .ret false,
-    cur := none, done := false, reg := true, dcur := false, ddone := false }
+  { nb := 0, nh := 0, hpc := fun _ => .returned, hbp := fun _ => 0, nt := 0, prog := fun _ => .next,
+    pc := fun _ => .ret false, tbp := fun _ => 0, cur := fun _ => none, done := fun _ => false,
+    reg := fun _ => true, dcur := none, ddone := false }
 
-/-- After `NewDebugger`, `NewBreakpoint`, `AddBreakpoint`: registered, one `d.next` goroutine. -/
-def St.init : St :=
-  { St.empty with nt := 1, prog := fun _ => .dnext, pc := fun _ => .start }
+/-- After `NewDebugger` and `AddBreakpoint` of `nb` new breakpoints: all registered, one `d.next`
+goroutine each. -/
+def St.init (nb : Nat) : St :=
+  { St.empty with nb := nb, nt := nb, prog := fun _ => .dnext, pc := fun _ => .start, tbp := fun t => t }
 
 def setf {α : Type} (f : Nat → α) (i : Nat) (v : α) : Nat → α := fun j => if j = i then v else f j
 
-/-- A new packet hook enters `OnFrame`. -/
-def St.addHook (s : St) : St := { s with nh := s.nh + 1, hpc := setf s.hpc s.nh .sendIn }
+/-- A new packet hook enters `OnFrame` of breakpoint `b`. -/
+def St.addHook (s : St) (b : Nat) : St :=
+  { s with nh := s.nh + 1, hpc := setf s.hpc s.nh .sendIn, hbp := setf s.hbp s.nh b }
 
-/-- A new debugger-side thread (an API call, or `go d.next`). -/
-def St.addThread (s : St) (p : Prog) : St :=
-  { s with nt := s.nt + 1, prog := setf s.prog s.nt p, pc := setf s.pc s.nt .start }
+/-- A new debugger-side thread (an API call, or `go d.next`) on breakpoint `b`. -/
+def St.addThread (s : St) (p : Prog) (b : Nat) : St :=
+  { s with nt := s.nt + 1, prog := setf s.prog s.nt p, pc := setf s.pc s.nt .start, tbp := setf s.tbp s.nt b }
 
 /-! Mutexes are not stored: a mutex is held exactly while some thread is at a program counter
 inside the critical section it guards (a lock / check / unlock sequence without a blocking
@@ -125,15 +136,19 @@ operation in between is a single step and never observed half-way). -/
 
 def anyT (s : St) (p : Nat → Bool) : Bool := (List.range s.nt).any p
 
-/-- `b.rmu`: held inside the selects of `Done` / `Next`. -/
-def rmuHeld (s : St) : Bool := anyT s fun t => s.pc t == .dSel || s.pc t == .nSel
+/-- `b.rmu` of breakpoint `b`: held inside the selects of `Done` / `Next`. -/
+def rmuHeld (s : St) (b : Nat) : Bool := anyT s fun t => s.tbp t == b && (s.pc t == .dSel || s.pc t == .nSel)
 /-- `b.wmu`: held by a `Breakpoint.Close` that has closed `done` and waits for `b.rmu`. -/
-def wmuHeld (s : St) : Bool := anyT s fun t => s.pc t == .cRmu
+def wmuHeld (s : St) (b : Nat) : Bool := anyT s fun t => s.tbp t == b && s.pc t == .cRmu
 /-- `d.rmu`: held inside the select of `Pause` / `Step`. -/
 def drmuHeld (s : St) : Bool := anyT s fun t => s.pc t == .pSel
 /-- `d.wmu`: held by `RemoveBreakpoint` / `Debugger.Close` from their first step to their return. -/
 def dwmuHeld (s : St) : Bool := anyT s fun t =>
   (s.prog t == .remove || s.prog t == .dclose) && (s.pc t == .cWmu || s.pc t == .cRmu || s.pc t == .qRmu)
+
+/-- The next breakpoint of `d.breakpoints` at or after position `start`. -/
+def nextReg (s : St) (start : Nat) : Option Nat :=
+  (List.range s.nb).find? fun b => decide (start ≤ b) && s.reg b
 
 inductive Act where
   | tau (t : Nat)            -- own step of thread t: a lock acquisition or the `done` branch of its select
@@ -155,95 +170,107 @@ def afterNext (p : Prog) (r : Bool) : Pc :=
   | .dnext => if r then .xSend else .ret false
   | _ => .ret r
 
+/-- `Debugger.Close` has finished with breakpoint `b` (closed now or found closed): on to the next
+registered one, or – the loop is over – `d.breakpoints = nil` and on to `d.rmu`. -/
+def dcloseNext (s : St) (t b : Nat) : St :=
+  match nextReg s (b + 1) with
+  | some b' => { s with tbp := setf s.tbp t b', pc := setf s.pc t .cWmu }
+  | none => { s with reg := fun _ => false, pc := setf s.pc t .qRmu }
+
 /-- `tau t`. `none` = not enabled. -/
 def tau (s : St) (t : Nat) : Option St :=
   if t < s.nt then
+    let b := s.tbp t
     match s.pc t, s.prog t with
     -- Breakpoint.Done (alone, or as the first call of Next)
     | .start, .next | .start, .done | .start, .dnext =>
-      if rmuHeld s then none
-      else match s.cur with
+      if rmuHeld s b then none
+      else match s.cur b with
         | none => some { s with pc := setf s.pc t (afterDone (s.prog t) true) }
         | some _ => some { s with pc := setf s.pc t .dSel }
     | .dSel, _ =>
-      if s.done then some { s with pc := setf s.pc t (afterDone (s.prog t) false) } else none
+      if s.done b then some { s with pc := setf s.pc t (afterDone (s.prog t) false) } else none
     | .nLock, _ =>
-      if rmuHeld s then none
-      else match s.cur with
+      if rmuHeld s b then none
+      else match s.cur b with
         | some _ => some { s with pc := setf s.pc t (afterNext (s.prog t) false) }
         | none => some { s with pc := setf s.pc t .nSel }
     | .nSel, _ =>
-      if s.done then some { s with pc := setf s.pc t (afterNext (s.prog t) false) } else none
+      if s.done b then some { s with pc := setf s.pc t (afterNext (s.prog t) false) } else none
     | .xSend, _ =>
       if s.ddone then some { s with pc := setf s.pc t (.ret false) } else none
     -- Breakpoint.Close called directly
     | .start, .close =>
-      if wmuHeld s then none
-      else if s.done then some { s with pc := setf s.pc t (.ret true) }
-      else some { s with done := true, pc := setf s.pc t .cRmu }
+      if wmuHeld s b then none
+      else if s.done b then some { s with pc := setf s.pc t (.ret true) }
+      else some { s with done := setf s.done b true, pc := setf s.pc t .cRmu }
     -- Breakpoint.Close inside RemoveBreakpoint / Debugger.Close (d.wmu held)
     | .cWmu, _ =>
-      if wmuHeld s then none
-      else if s.done then
+      if wmuHeld s b then none
+      else if s.done b then
         match s.prog t with
-        | .dclose => some { s with pc := setf s.pc t .qRmu }
+        | .dclose => some (dcloseNext s t b)
         | _ => some { s with pc := setf s.pc t (.ret true) }
-      else some { s with done := true, pc := setf s.pc t .cRmu }
+      else some { s with done := setf s.done b true, pc := setf s.pc t .cRmu }
     | .cRmu, _ =>
-      if rmuHeld s then none
+      if rmuHeld s b then none
       else match s.prog t with
-        | .dclose => some { s with cur := none, pc := setf s.pc t .qRmu }
-        | _ => some { s with cur := none, pc := setf s.pc t (.ret true) }
+        | .dclose => some (dcloseNext { s with cur := setf s.cur b none } t b)
+        | _ => some { s with cur := setf s.cur b none, pc := setf s.pc t (.ret true) }
     -- Debugger.Pause / Step
     | .start, .pause =>
       if drmuHeld s then none
-      else if s.dcur then some { s with pc := setf s.pc t (.ret true) }
+      else if s.dcur.isSome then some { s with pc := setf s.pc t (.ret true) }
       else some { s with pc := setf s.pc t .pSel }
     | .start, .step =>
       if drmuHeld s then none
       else
         let s1 := { s with pc := setf s.pc t .pSel }
-        some (if s.dcur then s1.addThread .dnext else s1)
+        match s.dcur with
+        | some c => some (s1.addThread .dnext c)
+        | none => some s1
     | .pSel, _ =>
       if s.ddone then some { s with pc := setf s.pc t (.ret false) } else none
     -- Debugger.RemoveBreakpoint / Close
     | .start, .remove =>
       if dwmuHeld s then none
-      else if s.reg then some { s with reg := false, pc := setf s.pc t .cWmu }
+      else if s.reg b then some { s with reg := setf s.reg b false, pc := setf s.pc t .cWmu }
       else some { s with pc := setf s.pc t (.ret false) }
     | .start, .dclose =>
       if dwmuHeld s then none
       else if s.ddone then some { s with pc := setf s.pc t (.ret true) }
-      else if s.reg then some { s with ddone := true, reg := false, pc := setf s.pc t .cWmu }
-      else some { s with ddone := true, pc := setf s.pc t .qRmu }
+      else
+        match nextReg s 0 with
+        | some b' => some { s with ddone := true, tbp := setf s.tbp t b', pc := setf s.pc t .cWmu }
+        | none => some { s with ddone := true, reg := fun _ => false, pc := setf s.pc t .qRmu }
     | .qRmu, _ =>
       if drmuHeld s then none
-      else some { s with dcur := false, pc := setf s.pc t (.ret true) }
+      else some { s with dcur := none, pc := setf s.pc t (.ret true) }
     | .ret _, _ => none
   else none
 
 def step (s : St) : Act → Option St
   | .tau t => tau s t
   | .hdone h =>
-    if h < s.nh ∧ s.done then
+    if h < s.nh ∧ s.done (s.hbp h) = true then
       match s.hpc h with
       | .sendIn => some { s with hpc := setf s.hpc h .waitOut }
       | .waitOut => some { s with hpc := setf s.hpc h .returned }
       | .returned => none
     else none
   | .recvIn t h =>
-    if t < s.nt ∧ h < s.nh ∧ s.pc t = .nSel ∧ s.hpc h = .sendIn then
-      some { s with cur := some h, hpc := setf s.hpc h .waitOut,
+    if t < s.nt ∧ h < s.nh ∧ s.pc t = .nSel ∧ s.hpc h = .sendIn ∧ s.hbp h = s.tbp t then
+      some { s with cur := setf s.cur (s.tbp t) (some h), hpc := setf s.hpc h .waitOut,
                     pc := setf s.pc t (afterNext (s.prog t) true) }
     else none
   | .sendOut t h =>
-    if t < s.nt ∧ h < s.nh ∧ s.pc t = .dSel ∧ s.hpc h = .waitOut then
-      some { s with cur := none, hpc := setf s.hpc h .returned,
+    if t < s.nt ∧ h < s.nh ∧ s.pc t = .dSel ∧ s.hpc h = .waitOut ∧ s.hbp h = s.tbp t then
+      some { s with cur := setf s.cur (s.tbp t) none, hpc := setf s.hpc h .returned,
                     pc := setf s.pc t (afterDone (s.prog t) true) }
     else none
   | .dRecv p x =>
     if p < s.nt ∧ x < s.nt ∧ s.pc p = .pSel ∧ s.pc x = .xSend then
-      some { s with dcur := true, pc := setf (setf s.pc p (.ret true)) x (.ret true) }
+      some { s with dcur := some (s.tbp x), pc := setf (setf s.pc p (.ret true)) x (.ret true) }
     else none
 
 /-- Run a schedule; `none` as soon as a chosen action is not enabled. -/
@@ -279,15 +306,21 @@ def okPc : Prog → Pc → Bool
   | .dclose, .cWmu | .dclose, .cRmu | .dclose, .qRmu => true
   | _, _ => false
 
-/-- Well-formed: every thread is at a program counter of its own program. -/
-def WF (s : St) : Prop := ∀ t, t < s.nt → okPc (s.prog t) (s.pc t) = true
+/-- Well-formed: every thread is at a program counter of its own program, and every breakpoint
+index in use is one of the debugger's `nb` breakpoints. -/
+def WF (s : St) : Prop :=
+  (∀ t, t < s.nt → okPc (s.prog t) (s.pc t) = true) ∧
+  (∀ t, t < s.nt → s.tbp t < s.nb) ∧ (∀ h, h < s.nh → s.hbp h < s.nb) ∧
+  (∀ c, s.dcur = some c → c < s.nb)
 
 /-! ### termination measure -/
 
 def hrank : HPc → Nat
   | .sendIn => 2 | .waitOut => 1 | .returned => 0
 
-def rank : Prog → Pc → Nat
+/-- `nb`: number of breakpoints, `b`: the thread's breakpoint (for `Debugger.Close`: how far its
+loop has come – each remaining breakpoint may cost it a `cWmu` and a `cRmu` step). -/
+def rank (nb b : Nat) : Prog → Pc → Nat
   | _, .ret _ => 0
   | _, .xSend => 1
   | _, .nSel => 2
@@ -295,6 +328,8 @@ def rank : Prog → Pc → Nat
   | _, .dSel => 4
   | _, .pSel => 1
   | _, .qRmu => 1
+  | .dclose, .cRmu => 3 * (nb - b) + 2
+  | .dclose, .cWmu => 3 * (nb - b) + 3
   | _, .cRmu => 2
   | _, .cWmu => 3
   | .next, .start => 5 | .done, .start => 5 | .dnext, .start => 5
@@ -302,7 +337,7 @@ def rank : Prog → Pc → Nat
   | .pause, .start => 2
   | .step, .start => 8          -- 1 for itself + its pSel + a whole spawned dnext (5) + 1
   | .remove, .start => 4
-  | .dclose, .start => 4
+  | .dclose, .start => 3 * nb + 5
 
 def sumTo (n : Nat) (f : Nat → Nat) : Nat :=
   match n with
@@ -311,7 +346,7 @@ def sumTo (n : Nat) (f : Nat → Nat) : Nat :=
 
 /-- Total remaining work: every enabled action makes it strictly smaller. -/
 def measure (s : St) : Nat :=
-  sumTo s.nh (fun h => hrank (s.hpc h)) + sumTo s.nt (fun t => rank (s.prog t) (s.pc t))
+  sumTo s.nh (fun h => hrank (s.hpc h)) + sumTo s.nt (fun t => rank s.nb (s.tbp t) (s.prog t) (s.pc t))
 
 /-! ### observations and printing (driver) -/
 
@@ -339,11 +374,13 @@ def showB (b : Bool) : String := if b then "1" else "0"
 
 /-- Complete canonical rendering of a state (used to de-duplicate during exploration). -/
 def showSt (s : St) : String :=
-  let hs := (List.range s.nh).map fun h => showHPc (s.hpc h)
-  let ts := (List.range s.nt).map fun t => showProg (s.prog t) ++ ":" ++ showPc (s.pc t)
-  "h[" ++ ",".intercalate hs ++ "] t[" ++ ",".intercalate ts ++ "] cur=" ++ showOptNat s.cur
-    ++ " done=" ++ showB s.done ++ " reg=" ++ showB s.reg ++ " dcur=" ++ showB s.dcur
-    ++ " ddone=" ++ showB s.ddone
+  let hs := (List.range s.nh).map fun h => showHPc (s.hpc h) ++ "@" ++ toString (s.hbp h)
+  let ts := (List.range s.nt).map fun t =>
+    showProg (s.prog t) ++ "@" ++ toString (s.tbp t) ++ ":" ++ showPc (s.pc t)
+  let bs := (List.range s.nb).map fun b =>
+    showOptNat (s.cur b) ++ "/" ++ showB (s.done b) ++ "/" ++ showB (s.reg b)
+  "h[" ++ ",".intercalate hs ++ "] t[" ++ ",".intercalate ts ++ "] b[" ++ ",".intercalate bs
+    ++ "] dcur=" ++ showOptNat s.dcur ++ " ddone=" ++ showB s.ddone
 
 /-- What the harness can see of a quiescent state: how many hook threads have returned (packets
 resumed), and for every API-call thread (not the internal `dnext` goroutines) whether it has
@@ -367,16 +404,19 @@ def callStatus (s : St) : List String :=
 def releasedCount (s : St) : Nat := ((List.range s.nh).filter fun h => s.hpc h = .returned).length
 
 /-- Every state reachable from the given ones (the given ones included), de-duplicated by
-`showSt`. `fuel` bounds the number of expanded states (the machine is finite and acyclic –
-`measure` – so a large enough fuel is exact; `none` when it ran out). -/
-def closure (fuel : Nat) (work : List St) (seen : Std.HashSet String) (acc : List St) : Option (List St) :=
+`showSt`. `limit` bounds the number of distinct states, `fuel` the number of edges followed (the
+machine is finite and acyclic – `measure` – so large enough bounds are exact; `none` when one ran
+out). -/
+def closure (fuel limit : Nat) (work : List St) (seen : Std.HashSet String) (acc : List St) (n : Nat) :
+    Option (List St) :=
   match fuel, work with
   | _, [] => some acc
   | 0, _ :: _ => none
   | fuel + 1, s :: work =>
     let key := showSt s
-    if seen.contains key then closure fuel work seen acc
-    else closure fuel ((enabled s).filterMap (step s) ++ work) (seen.insert key) (s :: acc)
+    if seen.contains key then closure fuel limit work seen acc n
+    else if n ≥ limit then none
+    else closure fuel limit ((enabled s).filterMap (step s) ++ work) (seen.insert key) (s :: acc) (n + 1)
 
 def isTerminal (s : St) : Bool := (enabled s).isEmpty
 
